@@ -4,37 +4,62 @@ CHECK = {
     "translators": ["c15_consts"],
     "level": "proof",
     "technique": "Lean theorems over an executable model (linear algebra over a field + root counting of the "
-                 "combination polynomial), model tied to the real code by a line-by-line correspondence: "
+                 "combination polynomial; induction over trees of scale/add_msm calls; per-key specifications of the "
+                 "BTreeMap operations), model tied to the real code by a line-by-line correspondence: "
                  "synthetic guards/accumulators with known discrete logarithms and trapdoor through the real "
-                 "MSMKZG/DualMSM/Guard/Msm/Accumulator code, real proofs through the real zk_stdlib::batch_verify "
-                 "with the honest, a recording and a challenge-forcing transcript hash",
+                 "MSMKZG/DualMSM/Guard/Msm/Accumulator code (chains and trees of calls, all pairs of key sets over four "
+                 "names), real proofs through the real zk_stdlib::batch_verify with the honest, a recording and a "
+                 "challenge-forcing transcript hash (every hasher operation of the batch in program order), and the "
+                 "in-circuit AssignedAccumulator::accumulate run inside MockProver circuits (light back-end)",
     "rule": "one evaluation = one request line answered by the implementation and by the model; distinct non-trivial "
             "= distinct request lines of batches with >= 2 members / structures with >= 2 terms; the distribution "
-            "table lists batch size x kind of invalidity x verdict",
+            "table lists batch size x kind of invalidity x verdict, tree shape x verdict, key-set relation, "
+            "in-circuit runs. The correspondence is deliberately tight on STRUCTURE (order of terms, scalars, map "
+            "entries, order and byte length of transcript operations): a re-association of the batching loop that "
+            "changes the order of terms in the combined guard is reported even if it is algebraically harmless",
     "explanation": "Batching (zk_stdlib::batch_verify, Guard::batch_verify, DualMSM scale/add_msm/check) and accumulation "
-                   "(Accumulator from_dual_msm/accumulate/collapse/check, Msm) are modelled over an abstract field and "
-                   "vector space; theorems: completeness at every challenge, soundness by counting (<= n-1 exceptional "
-                   "challenges), order/multiplicity, first-error semantics, totality (empty batch, length mismatch), "
-                   "the batching challenge absorbs every member's summary; the model is run against the real code on "
-                   "every check, and the property's oracle (batch verdict == conjunction of individual verdicts) is "
-                   "evaluated on real proofs for sizes 0..6",
+                   "(Accumulator from_dual_msm/accumulate/collapse/check, Msm; the in-circuit AssignedMsm scale/add_msm/"
+                   "accumulate_with_r, powers and AssignedAccumulator::accumulate on values) are modelled over an abstract "
+                   "field and vector space. Theorems: completeness at every challenge; soundness by counting (<= n-1 "
+                   "exceptional challenges) for batch_verify, accumulate (also after collapse) and for EVERY tree of "
+                   "scale/add_msm calls whose leaves sit under pairwise distinct numbers of scale calls (<= max depth "
+                   "exceptional challenges: guard_tree_eval, guard_tree_sound_count), with the converse that a repeated "
+                   "exponent lets opposite defects cancel at every challenge (seed C15-1); Guard::batch_verify, collapse "
+                   "and from_dual_msm are exact (no exceptional value); the in-circuit accumulate equals the off-circuit "
+                   "one; accumulate_with_r and from_dual_msm name by name for arbitrary key sets and repeated labels; "
+                   "order/multiplicity; first-error semantics; totality of every entry point with the value returned; "
+                   "the batching challenge is squeezed after every member's complete transcript block, for every batch "
+                   "size (global_schedule_r_after_all). The model is run against the real code on every check, and the "
+                   "property's oracle (batch verdict == conjunction of individual verdicts, incl. adaptive attacks that "
+                   "succeed iff the challenge ignores a member) is evaluated on real proofs for sizes 0..6",
     "trusted_base": [
         "blst pairing: e(L,[tau]_2)*e(R,-[1]_2)=1 is specified as tau*L=R (bilinear, non-degenerate); checked on "
         "every synthetic case against the known trapdoor and discrete logarithms",
         "multi-scalar multiplication (multi_exp/msm_best) is specified as the plain sum (property C12)",
         "the Poseidon sponge and Blake2b are uninterpreted functions: soundness is stated as a bound on the number "
         "of challenge values at which an invalid batch passes, not as a probability",
-        "plonk::prepare is an input of the batching model (its result per member is observed, not modelled: C01/C03)",
+        "plonk::prepare is an input of the batching model (its result and its own transcript operations per member "
+        "are observed on a stand-alone run, not modelled: C01/C03); inside batch_verify each member's operations "
+        "are compared byte for byte with that stand-alone run",
+        "in-circuit accumulation is tied on the VALUES of the cells (MockProver witness generation + satisfaction "
+        "with the off-circuit result as instance, light curve back-end); the constraints of the native/Poseidon "
+        "chips that force those values are other properties (C04, C07)",
     ],
     "level_text": "Kernel-checked Lean theorems about an executable model of the batching and accumulation layer (all batch "
-                  "sizes, positions, orders, multiplicities, all field elements as challenges), with the model and the "
-                  "property's oracle checked against the real entry points on every run",
+                  "sizes, positions, orders, multiplicities, all shapes of scale/add_msm trees, all key sets of the "
+                  "fixed-base maps, all field elements as challenges), with the model and the property's oracle checked "
+                  "against the real off-circuit and in-circuit entry points on every run",
     "level_note": "Trusted: Lean kernel, the correspondence harness and driver; pairing, MSM and hash functions are specified, "
-                  "not verified; 'accepts only all-valid batches' holds up to <= n-1 exceptional challenge values per batch "
-                  "(random-oracle step not formalised)",
+                  "not verified; 'accepts only all-valid batches' holds up to an explicit number of exceptional challenge "
+                  "values per batch (n-1 for batch_verify and accumulate, the largest exponent for a general tree; 0 for "
+                  "Guard::batch_verify, collapse, from_dual_msm) - the random-oracle step from 'few bad challenges' to "
+                  "'negligible probability' is not formalised; that r is squeezed after every member's block is a theorem "
+                  "about the model's schedule, tied to the code by the recorded order of hasher operations (kinds, byte "
+                  "lengths, owner) on every sampled batch, not by a proof about the Rust control flow. Known finding: "
+                  "Accumulator::accumulate(&[]) panics (accs[0])",
     "assumptions": [
         "the batching challenge r (Blake2b transcript) and the accumulation challenge (Poseidon sponge) behave as values "
-        "the prover cannot steer into the <= n-1 roots of the combination polynomial",
+        "the prover cannot steer into the exceptional set (roots of the combination polynomial)",
     ],
     "timeout": {"quick": 900, "thorough": 3000, "search": 900},
 }
